@@ -16,6 +16,9 @@ pub enum Content {
     Hex(Vec<u8>),
     /// `len` copies of one byte (large junk files without a large scenario text)
     Fill { len: usize, byte: u8 },
+    /// a two-type zone with `n` transitions one second apart alternating between offsets 0 and `d`:
+    /// one local time then has about d/2 results (counters wider than a byte / a half-word)
+    PingPong { n: usize, d: i32 },
 }
 
 #[derive(Clone, Debug, PartialEq, Eq)]
@@ -480,6 +483,7 @@ impl Scenario {
                 Content::Corpus(p) => s.push_str(&format!("content {i} corpus {}\n", esc(p.as_bytes()))),
                 Content::Typed { base, kind, arg } => s.push_str(&format!("content {i} typed base={base} kind={kind} arg={arg}\n")),
                 Content::Fill { len, byte } => s.push_str(&format!("content {i} fill len={len} byte={byte}\n")),
+                Content::PingPong { n, d } => s.push_str(&format!("content {i} pingpong n={n} d={d}\n")),
                 Content::Hex(b) => s.push_str(&format!("content {i} hex {}\n", if b.is_empty() { "-".to_string() } else { b.iter().map(|x| format!("{x:02x}")).collect::<String>() })),
             }
         }
@@ -544,6 +548,19 @@ impl Scenario {
                                 }
                             }
                             Content::Typed { base, kind: k, arg }
+                        }
+                        "pingpong" => {
+                            let mut n = 0usize;
+                            let mut d = 0i32;
+                            for t in &tok[3..] {
+                                let (a, b) = t.split_once('=').ok_or_else(|| err("pingpong token".into()))?;
+                                match a {
+                                    "n" => n = b.parse().map_err(|_| err("pingpong n".into()))?,
+                                    "d" => d = b.parse().map_err(|_| err("pingpong d".into()))?,
+                                    _ => return Err(err(format!("pingpong key {a}"))),
+                                }
+                            }
+                            Content::PingPong { n, d }
                         }
                         "fill" => {
                             let mut len = 0usize;
